@@ -672,3 +672,336 @@ Section Located.
              (exact_pts_distance i j a b p0 p1 d0 d1 q0 q1 e0 e1 Hij H0 H1 L0 L1 K0 K1 M0 M1 Fa Fb Ha Hb)).
   Qed.
 End Located.
+
+(* ================================================================== *)
+(* through the search: positions as position_at computes them          *)
+(* ================================================================== *)
+
+Lemma last_opt_nth {A} (l : list A) x : last_opt l = Some x -> nth_error l (Nat.pred (length l)) = Some x.
+Proof.
+  induction l as [|a [|b t] IH]; intros H; try discriminate.
+  - cbn in H. inversion H; subst. reflexivity.
+  - change (last_opt (a :: b :: t)) with (last_opt (b :: t)) in H. specialize (IH H).
+    cbn [length Nat.pred] in *. exact IH.
+Qed.
+
+Lemma last_opt_some {A} (l : list A) : l <> [] -> exists x, last_opt l = Some x.
+Proof.
+  induction l as [|a [|b t] IH]; intros H; [congruence|exists a; reflexivity|].
+  change (last_opt (a :: b :: t)) with (last_opt (b :: t)). apply IH. discriminate.
+Qed.
+
+(* the per-coordinate rounding bound of one interpolation for coordinates of magnitude <= M *)
+Definition E19max (M : R) : R := u32 * 7.02 * M + pw (-125).
+
+Lemma E19_le_max c0 c1 M : Rabs c0 <= M -> Rabs c1 <= M -> E19 c0 c1 <= E19max M.
+Proof.
+  intros H0 H1. unfold E19, E19max.
+  assert (Hm : Rmax (Rabs c0) (Rabs c1) <= M) by (apply Rmax_lub; assumption).
+  assert (Hd : Rabs (c1 - c0) <= 2 * M).
+  { unfold Rminus. eapply Rle_trans; [apply Rabs_triang|]. rewrite Rabs_Ropp. lra. }
+  unfold u32. lra.
+Qed.
+
+Lemma interpolate_zero path lengths d f : nth_error path 0 = Some f -> interpolate_vertices path lengths 0 d = Done f.
+Proof. destruct path; cbn; intros H; [discriminate|inversion H; reflexivity]. Qed.
+
+Definition coords_le (M : R) (path : list Pos) : Prop :=
+  Forall (fun p => Rabs (B2R (px p)) <= M /\ Rabs (B2R (py p)) <= M) path.
+
+Section Search.
+  Variable path : list Pos.
+  Hypothesis Hc : Forall (fun p => coord_le p 20) path.
+  Hypothesis Hs : segs_ok path.
+  Hypothesis Hn : (length path <= 2 ^ 50)%nat.
+  Hypothesis Ht40 : poly_len (map R2 path) <= pw 40.
+  Local Notation lens := (natural path D.zero).
+  Local Notation L := (Curve.dist lens).
+
+  Lemma dist_is_last : nth_error lens (Nat.pred (length lens)) = Some L.
+  Proof.
+    destruct (last_opt_some lens ltac:(unfold natural; discriminate)) as (x & Hx).
+    unfold Curve.dist. rewrite Hx. apply last_opt_nth. exact Hx.
+  Qed.
+
+  Lemma natural_le_dist k l : nth_error lens k = Some l -> B2R l <= B2R L.
+  Proof.
+    intros Hl. destruct (natural_sorted_fin path Hc Hs Hn Ht40) as (_ & Le).
+    apply (Le k (Nat.pred (length lens)) l L); [|exact Hl|exact dist_is_last].
+    assert (k < length lens)%nat by (apply nth_error_Some; congruence). lia.
+  Qed.
+
+  Lemma dist_bounds : fin L /\ 0 <= B2R L <= pw 41.
+  Proof. exact (natural_nth_bound path Hc Hs Hn Ht40 _ _ dist_is_last). Qed.
+
+  Lemma natural_head : nth_error lens 0 = Some D.zero.
+  Proof. reflexivity. Qed.
+
+  (* where the search puts a distance 0 <= d <= dist: index 0 only for d = 0,
+     otherwise an index S i whose segment contains d *)
+  Lemma search_locates d : fin d -> 0 <= B2R d <= B2R L ->
+    (idx_of_dist lens d = 0%nat /\ B2R d = 0) \/
+    exists i p0 p1 l0 l1, idx_of_dist lens d = S i /\
+      nth_error path i = Some p0 /\ nth_error path (S i) = Some p1 /\
+      nth_error lens i = Some l0 /\ nth_error lens (S i) = Some l1 /\
+      B2R l0 <= B2R d <= B2R l1.
+  Proof.
+    intros Fd [Hd0 HdL].
+    pose proof (natural_sorted_fin path Hc Hs Hn Ht40) as Hsf.
+    pose proof (idx_of_dist_contract_ieee lens d Hsf Fd) as C. cbv zeta in C.
+    destruct Hsf as (_ & Le).
+    assert (Z0 : B2R D.zero = 0) by reflexivity.
+    set (k := idx_of_dist lens d) in *.
+    assert (Hk : (k < length lens)%nat /\ (k = 0%nat -> B2R d = 0) /\
+                 (forall i l0 l1, k = S i -> nth_error lens i = Some l0 -> nth_error lens k = Some l1 ->
+                    B2R l0 <= B2R d <= B2R l1)).
+    { destruct C as [(x & Hx & Ex)|(Hb & Ha)].
+      - split; [apply nth_error_Some; congruence|]. split.
+        + intros E. rewrite E in Hx. cbn in Hx. inversion Hx; subst. lra.
+        + intros i l0 l1 E H0 H1. rewrite Hx in H1. inversion H1; subst l1.
+          pose proof (Le i k l0 x ltac:(lia) H0 Hx). lra.
+      - assert (K1 : (k <> 0)%nat).
+        { intros E. pose proof (Ha 0%nat D.zero ltac:(lia) natural_head). lra. }
+        assert (K2 : (k <= Nat.pred (length lens))%nat).
+        { destruct (Nat.le_gt_cases k (Nat.pred (length lens))) as [H|H]; [exact H|].
+          pose proof (Hb _ _ H dist_is_last). lra. }
+        assert (Hlen : (0 < length lens)%nat) by (unfold natural; cbn [length]; lia).
+        split; [lia|]. split; [intros E; congruence|].
+        intros i l0 l1 E H0 H1. pose proof (Hb i l0 ltac:(lia) H0). pose proof (Ha k l1 ltac:(lia) H1). lra. }
+    destruct Hk as (Hlt & Hz & Hseg).
+    destruct k as [|i] eqn:Ek; [left; split; [reflexivity|apply Hz; reflexivity]|right].
+    rewrite natural_length in Hlt.
+    assert (Hp : (S i < length path)%nat) by lia.
+    destruct (nth_error path i) as [p0|] eqn:E0; [|apply nth_error_None in E0; lia].
+    destruct (nth_error path (S i)) as [p1|] eqn:E1; [|apply nth_error_None in E1; lia].
+    destruct (nth_error lens i) as [l0|] eqn:F0; [|apply nth_error_None in F0; rewrite natural_length in F0; lia].
+    destruct (nth_error lens (S i)) as [l1|] eqn:F1; [|apply nth_error_None in F1; rewrite natural_length in F1; lia].
+    exists i, p0, p1, l0, l1. repeat (split; [first [reflexivity|assumption]|]). exact (Hseg i l0 l1 eq_refl F0 eq_refl).
+  Qed.
+
+  (* from the exact point of a located distance to any vertex *)
+  Lemma exact_pt_to_vertex i d p0 p1 l0 l1 m pm lm :
+    nth_error path i = Some p0 -> nth_error path (S i) = Some p1 ->
+    nth_error lens i = Some l0 -> nth_error lens (S i) = Some l1 ->
+    fin d -> B2R l0 <= B2R d <= B2R l1 ->
+    nth_error path m = Some pm -> nth_error lens m = Some lm ->
+    edist (exact_pt p0 p1 l0 l1 d) (R2 pm)
+    <= (1 + delta19) * Rabs (B2R d - B2R lm) + INR (length path) * eta19 * B2R L.
+  Proof.
+    intros H0 H1 L0 L1 Fd Hd Hm Lm.
+    pose proof delta19_pos as Pd. pose proof eta19_pos as Pe.
+    destruct (segment_point path Hc Hs Hn Ht40 i d p0 p1 l0 l1 H0 H1 L0 L1 Fd Hd) as (_ & _ & _ & _ & S0 & S1).
+    set (P := exact_pt p0 p1 l0 l1 d) in *.
+    pose proof (natural_le_dist _ _ L0) as U0. pose proof (natural_le_dist _ _ L1) as U1.
+    pose proof (natural_le_dist _ _ Lm) as Um.
+    destruct (natural_nth_bound path Hc Hs Hn Ht40 _ _ L0) as (_ & Z0 & _).
+    destruct (natural_nth_bound path Hc Hs Hn Ht40 _ _ Lm) as (_ & Zm & _).
+    assert (Hi : (S i < length path)%nat) by (apply nth_error_Some; congruence).
+    assert (Hmm : (m < length path)%nat) by (apply nth_error_Some; congruence).
+    assert (ZL : 0 <= B2R L) by lra.
+    destruct (Nat.le_gt_cases (S i) m) as [Hge|Hlt].
+    - destruct (chain_vertices path Hc Hs Hn (Ht1000 path Ht40) (m - S i) (S i) p1 pm l1 lm H1
+                  ltac:(replace (S i + (m - S i))%nat with m by lia; exact Hm) L1
+                  ltac:(replace (S i + (m - S i))%nat with m by lia; exact Lm)) as (Cm & Chm).
+      pose proof (edist_triangle P (R2 p1) (R2 pm)) as T.
+      rewrite (Rabs_left1 (B2R d - B2R lm)) by lra.
+      assert (N : INR (m - S i) + 1 <= INR (length path)).
+      { rewrite <- S_INR. apply le_INR. lia. }
+      pose proof (pos_INR (m - S i)) as Pn.
+      assert (Q1 : INR (m - S i) * eta19 * B2R lm <= INR (m - S i) * eta19 * B2R L).
+      { apply Rmult_le_compat_l; [apply Rmult_le_pos; lra|lra]. }
+      assert (Q2 : eta19 * B2R l1 <= eta19 * B2R L) by (apply Rmult_le_compat_l; lra).
+      assert (Q3 : (INR (m - S i) + 1) * (eta19 * B2R L) <= INR (length path) * (eta19 * B2R L)).
+      { apply Rmult_le_compat_r; [apply Rmult_le_pos; lra|exact N]. }
+      lra.
+    - destruct (chain_vertices path Hc Hs Hn (Ht1000 path Ht40) (i - m) m pm p0 lm l0 Hm
+                  ltac:(replace (m + (i - m))%nat with i by lia; exact H0) Lm
+                  ltac:(replace (m + (i - m))%nat with i by lia; exact L0)) as (Cm & Chm).
+      pose proof (edist_triangle (R2 pm) (R2 p0) P) as T. rewrite (edist_sym P).
+      rewrite (Rabs_pos_eq (B2R d - B2R lm)) by lra.
+      assert (N : INR (i - m) + 1 <= INR (length path)).
+      { rewrite <- S_INR. apply le_INR. lia. }
+      pose proof (pos_INR (i - m)) as Pn.
+      assert (Q1 : INR (i - m) * eta19 * B2R l0 <= INR (i - m) * eta19 * B2R L).
+      { apply Rmult_le_compat_l; [apply Rmult_le_pos; lra|lra]. }
+      assert (Q2 : eta19 * B2R l1 <= eta19 * B2R L) by (apply Rmult_le_compat_l; lra).
+      assert (Q3 : (INR (i - m) + 1) * (eta19 * B2R L) <= INR (length path) * (eta19 * B2R L)).
+      { apply Rmult_le_compat_r; [apply Rmult_le_pos; lra|exact N]. }
+      lra.
+  Qed.
+
+  Variable M : R.
+  Hypothesis HM : coords_le M path.
+  Hypothesis HM0 : 0 <= M.
+
+  Lemma E19_path_max k p0 p1 : nth_error path k = Some p0 -> nth_error path (S k) = Some p1 ->
+    E19 (B2R (px p0)) (B2R (px p1)) <= E19max M /\ E19 (B2R (py p0)) (B2R (py p1)) <= E19max M.
+  Proof.
+    intros H0 H1. unfold coords_le in HM. rewrite Forall_forall in HM.
+    destruct (HM p0 (nth_error_In _ _ H0)) as (X0 & Y0). destruct (HM p1 (nth_error_In _ _ H1)) as (X1 & Y1).
+    split; apply E19_le_max; assumption.
+  Qed.
+
+  (* the position the code computes for a distance 0 <= d <= dist (search,
+     then interpolation) against ANY vertex m: at most the difference of d and
+     the vertex's computed length (times 1 + delta19), plus the accumulated
+     addition roundings, plus the rounding of the interpolation *)
+  Theorem position_near_vertex_ieee d m pm lm :
+    fin d -> 0 <= B2R d <= B2R L ->
+    nth_error path m = Some pm -> nth_error lens m = Some lm ->
+    let B := (1 + delta19) * Rabs (B2R d - B2R lm) + INR (length path) * eta19 * B2R L + E19max M in
+    exists q, interpolate_vertices path lens (idx_of_dist lens d) d = Done q /\
+      Rabs (B2R (px q) - B2R (px pm)) <= B /\ Rabs (B2R (py q) - B2R (py pm)) <= B.
+  Proof.
+    intros Fd Hd Hm Lm B.
+    pose proof delta19_pos as Pd. pose proof eta19_pos as Pe.
+    assert (EM : 0 <= E19max M).
+    { unfold coords_le in HM. rewrite Forall_forall in HM. destruct (HM pm (nth_error_In _ _ Hm)) as (X & _).
+      pose proof (Rabs_pos (B2R (px pm))). unfold E19max, u32. pose proof (bpow_gt_0 radix2 (-125)). lra. }
+    destruct (search_locates d Fd Hd) as [(Ek & Ez)|(i & p0 & p1 & l0 & l1 & Ek & H0 & H1 & L0 & L1 & Hseg)]; rewrite Ek.
+    - assert (Hmm0 : (m < length path)%nat) by (apply nth_error_Some; congruence).
+      destruct (nth_error path 0) as [f|] eqn:Hf; [|apply nth_error_None in Hf; lia].
+      exists f. split; [apply interpolate_zero; exact Hf|].
+      destruct (chain_vertices path Hc Hs Hn (Ht1000 path Ht40) m 0 f pm D.zero lm Hf Hm natural_head Lm) as (Cm & Chm).
+      assert (Z0 : B2R D.zero = 0) by reflexivity. rewrite Z0 in *.
+      pose proof (natural_le_dist _ _ Lm) as Um.
+      assert (Hmm : (m < length path)%nat) by (apply nth_error_Some; congruence).
+      assert (N : INR m <= INR (length path)) by (apply le_INR; lia).
+      pose proof (pos_INR m) as Pn.
+      assert (Q1 : INR m * eta19 * B2R lm <= INR (length path) * eta19 * B2R L).
+      { apply Rle_trans with (INR m * eta19 * B2R L).
+        - apply Rmult_le_compat_l; [apply Rmult_le_pos; lra|lra].
+        - rewrite !Rmult_assoc. apply Rmult_le_compat_r; [apply Rmult_le_pos; lra|exact N]. }
+      assert (D0 : edist (R2 f) (R2 pm) <= B - E19max M).
+      { unfold B. rewrite Ez, (Rabs_left1 (0 - B2R lm)) by lra. lra. }
+      destruct (near_points f pm (R2 f) (R2 pm) 0 0 0 0 _ ltac:(cbn [R2 fst]; rewrite Rminus_diag_eq, Rabs_R0 by reflexivity; lra)
+                  ltac:(cbn [R2 snd]; rewrite Rminus_diag_eq, Rabs_R0 by reflexivity; lra)
+                  ltac:(cbn [R2 fst]; rewrite Rminus_diag_eq, Rabs_R0 by reflexivity; lra)
+                  ltac:(cbn [R2 snd]; rewrite Rminus_diag_eq, Rabs_R0 by reflexivity; lra) D0) as (Bx & By & _).
+      split; lra.
+    - destruct (segment_point path Hc Hs Hn Ht40 i d p0 p1 l0 l1 H0 H1 L0 L1 Fd Hseg) as (q & Hq & Bx & By & _).
+      exists q. split; [exact Hq|].
+      pose proof (exact_pt_to_vertex i d p0 p1 l0 l1 m pm lm H0 H1 L0 L1 Fd Hseg Hm Lm) as D0.
+      destruct (E19_path_max i p0 p1 H0 H1) as (Mx & My).
+      destruct (near_points q pm _ (R2 pm) _ _ 0 0 _ Bx By
+                  ltac:(cbn [R2 fst]; rewrite Rminus_diag_eq, Rabs_R0 by reflexivity; lra)
+                  ltac:(cbn [R2 snd]; rewrite Rminus_diag_eq, Rabs_R0 by reflexivity; lra) D0) as (Cx & Cy & _).
+      unfold B. split; lra.
+  Qed.
+
+  (* VERTEX HITS, clusters of nearly equal cumulative lengths included:
+     position_at (lengths[j] / dist) is vertex j up to
+     (1 + delta19) Dfrac + n eta19 dist + E19max *)
+  Theorem vertex_fraction_position_ieee j pj lj :
+    nth_error path j = Some pj -> nth_error lens j = Some lj -> 0 < B2R lj ->
+    let B := (1 + delta19) * Dfrac (B2R lj) (B2R L) + INR (length path) * eta19 * B2R L + E19max M in
+    exists q, position_at path lens (D.div lj L) = Done q /\
+      Rabs (B2R (px q) - B2R (px pj)) <= B /\ Rabs (B2R (py q) - B2R (py pj)) <= B.
+  Proof.
+    intros Hj Lj Hpos B. pose proof delta19_pos as Pd.
+    destruct dist_bounds as (FL & ZL & UL).
+    destruct (natural_nth_bound path Hc Hs Hn Ht40 _ _ Lj) as (Flj & _).
+    pose proof (natural_le_dist _ _ Lj) as Ulj.
+    assert (UL' : B2R L <= pw 1023) by (eapply Rle_trans; [exact UL|apply bpow_le; zl]).
+    destruct (vertex_fraction_distance lens lj Flj FL ltac:(lra) UL') as (Fd & Hd & Ed).
+    unfold position_at. set (d := progress_to_dist lens (D.div lj L)) in *.
+    destruct (position_near_vertex_ieee d j pj lj Fd Hd Hj Lj) as (q & Hq & Bx & By).
+    exists q. split; [exact Hq|].
+    assert (Q : (1 + delta19) * Rabs (B2R d - B2R lj) <= (1 + delta19) * Dfrac (B2R lj) (B2R L)).
+    { apply Rmult_le_compat_l; [lra|exact Ed]. }
+    unfold B. split; lra.
+  Qed.
+
+  (* the GLOBAL Lipschitz bound through the search: two distances in
+     [0, dist], each located by the transcribed binary search and interpolated
+     as position_at does *)
+  Theorem global_lipschitz_search_ieee a b :
+    fin a -> fin b -> 0 <= B2R a <= B2R L -> 0 <= B2R b <= B2R L ->
+    let G := (1 + delta19) * Rabs (B2R b - B2R a) + INR (length path) * eta19 * B2R L in
+    exists qa qb,
+      interpolate_vertices path lens (idx_of_dist lens a) a = Done qa /\
+      interpolate_vertices path lens (idx_of_dist lens b) b = Done qb /\
+      Rabs (B2R (px qa) - B2R (px qb)) <= G + 2 * E19max M /\
+      Rabs (B2R (py qa) - B2R (py qb)) <= G + 2 * E19max M /\
+      edist (R2 qa) (R2 qb) <= G + 4 * E19max M.
+  Proof.
+    intros Fa Fb Ha Hb G.
+    pose proof delta19_pos as Pd. pose proof eta19_pos as Pe.
+    destruct dist_bounds as (FL & ZL & UL).
+    (* b at index 0 or a at index 0: one of the two positions is the first vertex *)
+    assert (Sym : forall (x y : F64) (qa qb : Pos), Rabs (B2R y - B2R x) = Rabs (B2R x - B2R y) /\
+              (Rabs (B2R (px qa) - B2R (px qb)) = Rabs (B2R (px qb) - B2R (px qa))) /\
+              (Rabs (B2R (py qa) - B2R (py qb)) = Rabs (B2R (py qb) - B2R (py qa))) /\
+              edist (R2 qa) (R2 qb) = edist (R2 qb) (R2 qa)).
+    { intros x y qa qb. split; [apply Rabs_minus_sym|]. split; [apply Rabs_minus_sym|]. split; [apply Rabs_minus_sym|apply edist_sym]. }
+    assert (Main : forall a b : F64, fin a -> fin b -> 0 <= B2R a <= B2R L -> 0 <= B2R b <= B2R L ->
+              (idx_of_dist lens a <= idx_of_dist lens b)%nat ->
+              exists qa qb,
+                interpolate_vertices path lens (idx_of_dist lens a) a = Done qa /\
+                interpolate_vertices path lens (idx_of_dist lens b) b = Done qb /\
+                Rabs (B2R (px qa) - B2R (px qb)) <= (1 + delta19) * Rabs (B2R b - B2R a) + INR (length path) * eta19 * B2R L + 2 * E19max M /\
+                Rabs (B2R (py qa) - B2R (py qb)) <= (1 + delta19) * Rabs (B2R b - B2R a) + INR (length path) * eta19 * B2R L + 2 * E19max M /\
+                edist (R2 qa) (R2 qb) <= (1 + delta19) * Rabs (B2R b - B2R a) + INR (length path) * eta19 * B2R L + 4 * E19max M).
+    { clear a b Fa Fb Ha Hb G. intros a b Fa Fb Ha Hb Hab.
+      destruct (search_locates a Fa Ha) as [(Eka & Eza)|(i & p0 & p1 & d0 & d1 & Eka & H0 & H1 & L0 & L1 & Hsa)].
+      - (* a = 0 at index 0: the first vertex, whose length is 0 *)
+        destruct (nth_error path 0) as [f|] eqn:Hf.
+        2:{ assert (Ep : path = []) by (destruct path; [reflexivity|discriminate]).
+            exists pos0, pos0. rewrite Ep, !interpolate_empty. split; [reflexivity|]. split; [reflexivity|].
+            rewrite !Rminus_diag_eq, Rabs_R0, edist_refl by reflexivity.
+            assert (EM : 0 <= E19max M) by (unfold E19max, u32; pose proof (bpow_gt_0 radix2 (-125)); lra).
+            pose proof (Rabs_pos (B2R b - B2R a)).
+            assert (0 <= INR (length path) * eta19 * B2R L) by (apply Rmult_le_pos; [apply Rmult_le_pos; [apply pos_INR|lra]|lra]).
+            assert (0 <= (1 + delta19) * Rabs (B2R b - B2R a)) by (apply Rmult_le_pos; lra).
+            rewrite Ep in *. repeat split; try (rewrite Rminus_diag_eq, Rabs_R0 by reflexivity); lra. }
+        + 
+          destruct (position_near_vertex_ieee b 0%nat f D.zero Fb Hb Hf natural_head) as (qb & Hqb & Bx & By).
+          exists f, qb. split; [rewrite Eka; apply interpolate_zero; exact Hf|]. split; [exact Hqb|].
+          assert (Z0 : B2R D.zero = 0) by reflexivity. rewrite Z0 in Bx, By. rewrite Eza.
+          rewrite (Rabs_minus_sym (B2R (px f))), (Rabs_minus_sym (B2R (py f))).
+          assert (EM : 0 <= E19max M).
+          { unfold coords_le in HM. rewrite Forall_forall in HM. destruct (HM f (nth_error_In _ _ Hf)) as (X & _).
+            pose proof (Rabs_pos (B2R (px f))). unfold E19max, u32. pose proof (bpow_gt_0 radix2 (-125)). lra. }
+          split; [lra|]. split; [lra|].
+          pose proof (edist_le_l1 (R2 f) (R2 qb)) as Le1. cbn [R2 fst snd] in Le1.
+          rewrite (Rabs_minus_sym (B2R (px f))), (Rabs_minus_sym (B2R (py f))) in Le1.
+          (* the Euclidean distance through the exact point: redo with near_points *)
+          destruct (search_locates b Fb Hb) as [(Ekb & Ezb)|(j & q0 & q1 & e0 & e1 & Ekb & K0 & K1 & M0 & M1 & Hsb)].
+          * rewrite Ekb, (interpolate_zero _ _ _ _ Hf) in Hqb. inversion Hqb; subst qb. rewrite edist_refl.
+            pose proof (Rabs_pos (B2R b - 0)). pose proof (pos_INR (length path)).
+            assert (0 <= INR (length path) * eta19 * B2R L) by (apply Rmult_le_pos; [apply Rmult_le_pos; lra|lra]).
+            assert (0 <= (1 + delta19) * Rabs (B2R b - 0)) by (apply Rmult_le_pos; lra). lra.
+          * destruct (segment_point path Hc Hs Hn Ht40 j b q0 q1 e0 e1 K0 K1 M0 M1 Fb Hsb) as (qb' & Hqb' & Cx & Cy & _).
+            rewrite Ekb in Hqb. rewrite Hqb in Hqb'. inversion Hqb'; subst qb'.
+            pose proof (exact_pt_to_vertex j b q0 q1 e0 e1 0%nat f D.zero K0 K1 M0 M1 Fb Hsb Hf natural_head) as D0.
+            rewrite Z0 in D0. rewrite edist_sym in D0.
+            destruct (E19_path_max j q0 q1 K0 K1) as (Mx & My).
+            destruct (near_points f qb (R2 f) _ 0 0 _ _ _
+                        ltac:(cbn [R2 fst]; rewrite Rminus_diag_eq, Rabs_R0 by reflexivity; lra)
+                        ltac:(cbn [R2 snd]; rewrite Rminus_diag_eq, Rabs_R0 by reflexivity; lra) Cx Cy D0) as (_ & _ & Ce).
+            lra.
+      - destruct (search_locates b Fb Hb) as [(Ekb & Ezb)|(j & q0 & q1 & e0 & e1 & Ekb & K0 & K1 & M0 & M1 & Hsb)];
+          [rewrite Eka, Ekb in Hab; lia|].
+        rewrite Eka, Ekb in Hab |- *.
+        destruct (global_lipschitz_segments_ieee path Hc Hs Hn Ht40 i j a b p0 p1 d0 d1 q0 q1 e0 e1 ltac:(lia)
+                    H0 H1 L0 L1 K0 K1 M0 M1 Fa Fb Hsa Hsb) as (qa & qb & Hqa & Hqb & Bx & By & Be).
+        exists qa, qb. split; [exact Hqa|]. split; [exact Hqb|].
+        destruct (E19_path_max i p0 p1 H0 H1) as (Max & May). destruct (E19_path_max j q0 q1 K0 K1) as (Mbx & Mby).
+        pose proof (natural_le_dist _ _ M1) as Ue.
+        assert (Hj : (S j < length path)%nat) by (apply nth_error_Some; congruence).
+        assert (N : INR (j - i + 1) <= INR (length path)) by (apply le_INR; lia).
+        pose proof (pos_INR (j - i + 1)) as Pn.
+        destruct (natural_nth_bound path Hc Hs Hn Ht40 _ _ M1) as (_ & Ze & _).
+        assert (Q : INR (j - i + 1) * eta19 * B2R e1 <= INR (length path) * eta19 * B2R L).
+        { apply Rle_trans with (INR (j - i + 1) * eta19 * B2R L).
+          - apply Rmult_le_compat_l; [apply Rmult_le_pos; lra|lra].
+          - rewrite !Rmult_assoc. apply Rmult_le_compat_r; [apply Rmult_le_pos; lra|exact N]. }
+        split; [lra|]. split; lra. }
+    destruct (Nat.le_ge_cases (idx_of_dist lens a) (idx_of_dist lens b)) as [Hab|Hba].
+    - exact (Main a b Fa Fb Ha Hb Hab).
+    - destruct (Main b a Fb Fa Hb Ha Hba) as (qb & qa & Hqb & Hqa & Bx & By & Be).
+      exists qa, qb. split; [exact Hqa|]. split; [exact Hqb|].
+      destruct (Sym a b qa qb) as (S1 & S2 & S3 & S4). unfold G. rewrite S1, S2, S3, S4.
+      split; [exact Bx|]. split; [exact By|exact Be].
+  Qed.
+End Search.
